@@ -42,7 +42,7 @@ BLOOM_MC = [
 ]
 # negative configs (models of the pinned behaviour; each must VIOLATE the contract) - for the self-test only:
 #   core.model_check("MC_BloomDesign", cfg, expect_violation=True)
-BLOOM_MC_NEGATIVE = ["MC_BloomDesign_neg.cfg", "MC_BloomDesign_neg_qau.cfg", "MC_BloomDesign_neg_ro.cfg"]
+BLOOM_MC_NEGATIVE = ["MC_BloomDesign_neg.cfg", "MC_BloomDesign_neg_qau.cfg", "MC_BloomDesign_neg_ro.cfg", "MC_BloomDesign_neg_remark.cfg"]
 
 @prop("C15", "model_checking",
       "MC: exhaustive TLC runs of the multi-filter Bloom contract (3 filter slots, 1 memory region, 16 actions, all histories up to the call bound) "
@@ -56,7 +56,9 @@ BLOOM_MC_NEGATIVE = ["MC_BloomDesign_neg.cfg", "MC_BloomDesign_neg_qau.cfg", "MC
       ["harness/refhash.hpp is the published XXH64 (self-checked on published vectors at start-up); integers are hashed as their value widened to a 64-bit "
        "little-endian word, float widened to double, -0.0 -> 0.0, NaN -> 0x7ff8000000000000, strings/arrays as their bytes, empty ignored",
        "a view of caller memory is specified from its creation until ANOTHER view writes to the same memory (the class caches the bit count per "
-       "object); the driver re-wraps such views instead of using them",
+       "object); through such a stale view only plain update() is exercised (its effect on the memory is specified, its own later answers are "
+       "not; views created afterwards must see the items); query_and_update / set operations through a stale view are excluded (they store the "
+       "object's cached count: a multi-writer limitation of the class); otherwise the driver re-wraps stale views",
        "traces observe all bits for capacities <= 2048; the FPP verdict (create/initialize_by_accuracy, n = 500..4000, p = 0.005..0.2, 10000 probes) accepts "
        "F <= 1.25 p M + 6 sqrt(p M + 1)",
        "TLC 32-bit ints: seeds are renamed order-isomorphically (bin/vlib/munge.py); the contract uses only equality on them"])
